@@ -68,7 +68,10 @@ def gtf_errors(path, chroms, label):
             if g["strand"] != tr["strand"]:
                 errs.append(("gene-strand", "%s gene %s strand %s but transcript %s strand %s" % (label, t["gene"], g["strand"], tid, tr["strand"])))
             if not (g["start"] <= tr["start"] and tr["end"] <= g["end"]):
-                errs.append(("gene-span", "%s gene %s %d-%d does not contain its transcript %s %d-%d" %
+                novel_in_annotated = str(tid).startswith("transcript") and not str(t["gene"]).startswith("novel_gene") and \
+                    label == "transcript_models"
+                errs.append(("gene-span" + (":novel-transcript-beyond-annotated-gene" if novel_in_annotated else ""),
+                             "%s gene %s %d-%d does not contain its transcript %s %d-%d" %
                              (label, t["gene"], g["start"], g["end"], tid, tr["start"], tr["end"])))
         t["chain"] = tuple(ex)
     return errs, trs, genes
